@@ -32,7 +32,7 @@ def logging_monitor(log):
 
     def add_to_stats(self, value, **kwargs):
         if is_solution(value):
-            log.append((dict(kwargs), value, snap(value)))
+            log.append((dict(kwargs), value, snap(value)))      # identity (the object itself is kept) + content at logging time
         return orig(self, value, **kwargs)
 
     Hooks.add_to_stats = add_to_stats
@@ -60,7 +60,7 @@ def configs(thorough=False):
     out = []
 
     def add(label, problem_class, problem_params, sweeper_class, sweeper_params, dt, Tend, num_procs=1, maxiter=4,
-            restol=1e-9, hooks=(LogSolution,), conv=None, levels=1, transfer=None, extra_desc=None, mssdc_jac=True):
+            restol=-1, hooks=(LogSolution, LogSolutionAfterIteration), conv=None, levels=1, transfer=None, extra_desc=None, mssdc_jac=True):
         def build():
             desc = dict(problem_class=problem_class, problem_params=problem_params, sweeper_class=sweeper_class,
                         sweeper_params=sweeper_params, level_params=dict(dt=dt, restol=restol), step_params=dict(maxiter=maxiter))
@@ -155,9 +155,38 @@ def configs(thorough=False):
         from pySDC.projects.DAE.sweepers.fullyImplicitDAE import FullyImplicitDAE
         from pySDC.projects.DAE.sweepers.semiImplicitDAE import SemiImplicitDAE
         add('fullyImplicitDAE/simpleDAE', SimpleDAE, dict(newton_tol=1e-9), FullyImplicitDAE, sdc_lu, 0.05, 0.15, maxiter=6, hooks=both)
-        add('semiImplicitDAE/simpleDAE', SimpleDAE, dict(newton_tol=1e-9), SemiImplicitDAE, sdc_lu, 0.05, 0.15, maxiter=6)
+        # SemiImplicitDAE keeps its node objects for the whole step and updates them IN PLACE through component views
+        add('semiImplicitDAE/simpleDAE', SimpleDAE, dict(newton_tol=1e-9), SemiImplicitDAE, sdc_lu, 0.05, 0.15, maxiter=4, hooks=both)
+        add('semiImplicitDAE/simpleDAE/2nodes-IE', SimpleDAE, dict(newton_tol=1e-9), SemiImplicitDAE, dict(quad_type='RADAU-RIGHT', num_nodes=2, QI='IE'),
+            0.05, 0.15, maxiter=3, hooks=both)
+        from pySDC.projects.DAE.problems.pendulum2D import Pendulum2D
+        add('semiImplicitDAE/pendulum2D', Pendulum2D, dict(newton_tol=1e-9), SemiImplicitDAE, sdc_lu, 0.02, 0.06, maxiter=3, hooks=both)
+        add('fullyImplicitDAE/pendulum2D', Pendulum2D, dict(newton_tol=1e-9), FullyImplicitDAE, sdc_lu, 0.02, 0.06, maxiter=3, hooks=both)
     except Exception as e:
         out.append(('DAE/simpleDAE', e))
+    try:   # RungeKuttaDAE writes nodes in place as well (`lvl.u[m + 1][:] = ...`, `lvl.f[m + 1][:] = ...`)
+        from pySDC.projects.DAE.problems.simpleDAE import SimpleDAE
+        import pySDC.projects.DAE.sweepers.rungeKuttaDAE as RKD
+        for name in ['BackwardEulerDAE', 'TrapezoidalRuleDAE', 'EDIRK4DAE', 'DIRK43_2DAE']:
+            add('RKDAE/%s/simpleDAE' % name, SimpleDAE, dict(newton_tol=1e-9), getattr(RKD, name), {}, 0.05, 0.15, maxiter=1, hooks=both)
+    except Exception as e:
+        out.append(('RKDAE/simpleDAE', e))
+    try:   # families whose compute_end_point hands out u[-1] itself
+        import pySDC.implementations.sweeper_classes.Multistep as MS_
+        for name in ['AdamsBashforthExplicit1Step', 'BackwardEuler', 'AdamsMoultonImplicit1Step', 'AdamsMoultonImplicit2Step']:
+            add('Multistep/%s/vanderpol' % name, vanderpol, dict(mu=1.0, newton_tol=1e-9, newton_maxiter=50, u0=(2.0, 0.0)), getattr(MS_, name), {},
+                0.01, 0.04, maxiter=1, hooks=both)
+    except Exception as e:
+        out.append(('Multistep', e))
+    try:
+        from pySDC.implementations.problem_classes.PenningTrap_3D import penningtrap
+        import pySDC.implementations.sweeper_classes.Runge_Kutta_Nystrom as RKN_
+        for name in ['RKN', 'Velocity_Verlet']:
+            add('RKN/%s/penningtrap' % name, penningtrap,
+                dict(omega_E=4.9, omega_B=25.0, u0=np.array([[10, 0, 0], [100, 0, 100], [1], [1]], dtype=object), nparts=1, sig=0.1),
+                getattr(RKN_, name), {}, 0.015625, 0.0625, maxiter=1, hooks=both)
+    except Exception as e:
+        out.append(('RKN', e))
     return out
 
 
@@ -194,6 +223,19 @@ def run_config(label, build, rng=None):
             findings.append(('a logged solution was modified after it was logged (%s)' % ({k: meta[k] for k in sorted(meta) if k in ('time', 'iter', 'level', 'process', 'type')},),
                              'logged-modified', {'meta': {k: str(v) for k, v in meta.items()}}))
             break
+    # two different log entries of one run that are the SAME object although their contents differed when they were
+    # logged: the earlier entry has been overwritten in place (independent of what the stats dict still holds)
+    first = {}
+    for meta, obj, s in log:
+        key = id(obj)                       # objects are kept alive by `log`, ids are unique
+        if key in first and first[key][1] != s:
+            m0 = first[key][0]
+            findings.append(('two log entries are one object whose content changed between the two logging events (%s then %s)'
+                             % ({k: m0[k] for k in sorted(m0) if k in ('time', 'iter', 'type')}, {k: meta[k] for k in sorted(meta) if k in ('time', 'iter', 'type')}),
+                             'logged-aliased', {'first': {k: str(v) for k, v in m0.items()}, 'second': {k: str(v) for k, v in meta.items()}}))
+            break
+        first.setdefault(key, (meta, s))
+    # the returned value: unchanged since it was last logged, if it was logged
     # the caller's u0 must not share storage with anything logged or returned
     arrays = lambda o: [o] if isinstance(o, np.ndarray) else [getattr(o, a) for a in ('pos', 'vel', 'elec', 'magn') if hasattr(o, a)]
     for o in [uend] + [obj for _, obj, _ in log]:
